@@ -533,6 +533,9 @@ func checkR02d(p *Prog, r *Report) {
 				if cls == "" {
 					continue
 				}
+				if c, ok := pr[0].(*ssa.Call); ok && p.returnsResolvedName(calleeOf(&c.Call)) {
+					continue // the helper yields the spelling only after resolving the identifier, and a constant otherwise
+				}
 				lits, _ := p.litOperands(pr[1], in, 0)
 				for _, ls := range lits {
 					lit := ls.Lit
@@ -1000,4 +1003,29 @@ func checkR02f(p *Prog, r *Report) {
 	if n == 0 {
 		r.Unknown("R02f", "multi-name bindings", token.NoPos, "no construction of a binding with several names found")
 	}
+}
+
+// returnsResolvedName: a function of the translator with one string result that returns a non-constant value only
+// on paths where a resolved recogniser held (the identifier denotes the predeclared object), and a constant on all
+// other paths: comparing its result with a predeclared name is a comparison after resolution.
+func (p *Prog) returnsResolvedName(g *ssa.Function) bool {
+	if g == nil || g.Pkg == nil || g.Pkg.Pkg.Path() != Mod || len(g.Blocks) == 0 || g.Signature.Results().Len() != 1 {
+		return false
+	}
+	rm := p.Rels(g)
+	n, ok := 0, true
+	p.instrs(g, func(b *ssa.BasicBlock, i int, in ssa.Instruction) {
+		ret, isRet := in.(*ssa.Return)
+		if !isRet || len(ret.Results) != 1 {
+			return
+		}
+		if _, isConst := ret.Results[0].(*ssa.Const); isConst {
+			return
+		}
+		n++
+		if !p.hasRecogniserFact(p.RelsAt(rm, ret)) {
+			ok = false
+		}
+	})
+	return ok && n > 0
 }
